@@ -107,8 +107,8 @@ inline void compare_sparse(Ctx &ctx, const Sparse &got, const Sparse &exp, const
 }
 
 // ---------------------------------------------------------------------------------------------
-enum RunKind { R_OK, R_REJECT, R_ABORT, R_CRASH, R_TIMEOUT };
-struct Run { RunKind kind = R_OK; int code = 0; std::string status, out, err; };
+enum RunKind { RK_OK, RK_REJECT, RK_ABORT, RK_CRASH, RK_TIMEOUT };
+struct Run { RunKind kind = RK_OK; int code = 0; std::string status, out, err; };
 
 inline Run run_tool(const std::vector<std::string> &argv, const std::string &dir) {
     Run r; std::string so = dir + "/c16_stdout.txt", se = dir + "/c16_stderr.txt";
@@ -127,18 +127,18 @@ inline Run run_tool(const std::vector<std::string> &argv, const std::string &dir
         if (w < 0 && errno != EINTR) throw std::runtime_error("harness: waitpid failed");
         struct timespec d = {0, spins < 40 ? 250000L : 2000000L}; nanosleep(&d, nullptr); spins++;
         if ((spins & 63) == 0) { struct timespec t1; clock_gettime(CLOCK_MONOTONIC, &t1);
-            if (t1.tv_sec - t0.tv_sec >= 8) { kill(pid, SIGKILL); waitpid(pid, &st, 0); r.kind = R_TIMEOUT; r.status = "timeout"; return r; } }
+            if (t1.tv_sec - t0.tv_sec >= 8) { kill(pid, SIGKILL); waitpid(pid, &st, 0); r.kind = RK_TIMEOUT; r.status = "timeout"; return r; } }
     }
     r.out = slurp(so); r.err = slurp(se);
     bool san = r.err.find("Sanitizer") != std::string::npos || r.err.find("runtime error:") != std::string::npos;
     if (WIFEXITED(st)) {
         r.code = WEXITSTATUS(st); r.status = "exit status " + std::to_string(r.code);
-        if (san || (r.code != 0 && r.code != 1)) r.kind = R_CRASH; else r.kind = r.code == 0 ? R_OK : R_REJECT;
+        if (san || (r.code != 0 && r.code != 1)) r.kind = RK_CRASH; else r.kind = r.code == 0 ? RK_OK : RK_REJECT;
     } else if (WIFSIGNALED(st)) {
         r.code = 128 + WTERMSIG(st); r.status = std::string("killed by signal ") + std::to_string(WTERMSIG(st));
         // an uncaught library exception ends in std::terminate -> SIGABRT: a (crude) rejection, reported separately from memory errors
-        if (WTERMSIG(st) == SIGABRT && !san && r.err.find("terminate called") != std::string::npos) r.kind = R_ABORT; else r.kind = R_CRASH;
-    } else { r.kind = R_CRASH; r.status = "unknown wait status"; }
+        if (WTERMSIG(st) == SIGABRT && !san && r.err.find("terminate called") != std::string::npos) r.kind = RK_ABORT; else r.kind = RK_CRASH;
+    } else { r.kind = RK_CRASH; r.status = "unknown wait status"; }
     return r;
 }
 
